@@ -51,8 +51,9 @@ def jobs(tier):
     for version in (1, 3):
         out.append(("v%d.second-call-in-process" % version, "job", dict(version=version, req=0, route="magnet", warmup=True)))
         out.append(("v%d.after-failed-edit" % version, "job", dict(version=version, req=0, route="magnet", failed_edit=True)))
+    for version in (1, 2, 3):       # info keys in another order than the canonical one (other encoders, hand-made files)
+        out.append(("v%d.noncanonical-info" % version, "job", dict(version=version, req=0, route="magnet", shuffle=True)))
     if tier != "quick":
-        out.append(("v3.noncanonical-info", "job", dict(version=3, req=0, route="magnet", shuffle=True)))
         # the full product of version x request x route x layout flags x history
         import itertools
         seen = {j[0] for j in out}
